@@ -5,6 +5,7 @@ its key present), that they never touch the constructor log except through `cons
 without writes outside cfg starts every call from the call's own applied set.
 -/
 import Jap.Core.GraphFlow
+import Jap.Lemmas.Graph
 
 namespace Jap.Graph
 
@@ -259,5 +260,155 @@ theorem session_no_writes (order : List String) (comps : List (String × Bool)) 
   | carried, (cfg, fail) :: rest => by
     simp only [session, startCfg, List.isEmpty_nil, if_true, List.map_cons]
     rw [session_no_writes order comps carried rest]
+
+end Jap.Graph
+
+/-! ### from the order theorems to `SourcesReady` -/
+namespace Jap.Graph
+
+/-- when exactly the key `w` matches `c`, the rank of `c` is the position of `w` -/
+theorem rank_eq_idxOf_owner {κ γ : Type} [DecidableEq κ] (m : κ → γ → Bool) (c : γ) (w : κ) : ∀ (order : List κ),
+    (∀ k ∈ order, m k c = true ↔ k = w) → rank m order c = order.idxOf w
+  | [], _ => rfl
+  | k :: r, h => by
+    have hk := h k List.mem_cons_self
+    have hr := rank_eq_idxOf_owner m c w r (fun k' hk' => h k' (List.mem_cons_of_mem _ hk'))
+    by_cases hkw : k = w
+    · have hm : m k c = true := hk.mpr hkw
+      subst hkw
+      simp [rank, hm]
+    · have : m k c = false := by
+        cases hm : m k c with
+        | false => rfl
+        | true => exact absurd (hk.mp hm) hkw
+      have hb : (k == w) = false := by simpa using hkw
+      simp [rank, this, List.idxOf_cons, hb, hr]
+
+/-- components are placed along the order of their owner keys -/
+theorem owned_positions (es : List (String × String)) (o seq0 : List String) (owner : String → String)
+    (h : topo es = .ok o) (hown : ∀ k ∈ o, ∀ c ∈ seq0, keyMatches k c = true ↔ k = owner c) :
+    ∀ e ∈ es, ∀ s ∈ seq0, ∀ c ∈ seq0, owner s = e.1 → owner c = e.2 →
+      (reorder id o seq0).idxOf s < (reorder id o seq0).idxOf c := by
+  intro e he s hs c hc hos hoc
+  have hfwd := (topo_ok_names es o h).2 e he
+  have hr : reorder id o seq0 = reorderRec (fun k c => keyMatches k (id c)) o seq0 := reorderBy_eq _ _ _
+  rw [hr]
+  have hperm := reorderRec_perm (fun k c => keyMatches k (id c)) o seq0
+  have hrank : ∀ x ∈ seq0, rank (fun k c => keyMatches k (id c)) o x = o.idxOf (owner x) := by
+    intro x hx
+    exact rank_eq_idxOf_owner _ x (owner x) o (fun k hk => hown k hk x hx)
+  apply idxOf_lt_of_sorted (fun c => rank (fun k c => keyMatches k (id c)) o c) _ _ _
+    (reorderRec_sorted _ o seq0) (hperm.mem_iff.mpr hs) (hperm.mem_iff.mpr hc)
+  show rank _ o s < rank _ o c
+  rw [hrank s hs, hrank c hc, hos, hoc]
+  exact hfwd
+
+theorem pair_unique {α β : Type} : ∀ (l : List (α × β)) (a : α) (b b' : β), (l.map (·.1)).Nodup →
+    (a, b) ∈ l → (a, b') ∈ l → b = b'
+  | [], _, _, _, _, h, _ => by simp at h
+  | x :: r, a, b, b', hnd, h1, h2 => by
+    simp only [List.map_cons, List.nodup_cons] at hnd
+    rcases List.mem_cons.mp h1 with h1 | h1 <;> rcases List.mem_cons.mp h2 with h2 | h2
+    · rw [← h1] at h2; exact ((Prod.mk.inj h2).2).symm ▸ rfl
+    · exact absurd (List.mem_map.mpr ⟨(a, b'), h2, rfl⟩) (by rw [← h1] at hnd; exact hnd.1)
+    · exact absurd (List.mem_map.mpr ⟨(a, b), h1, rfl⟩) (by rw [← h2] at hnd; exact hnd.1)
+    · exact pair_unique r a b b' hnd.2 h1 h2
+
+theorem sourcesReady_of_positions (links : List FLink) (comps : List (String × Bool))
+    (hnd : (comps.map (·.1)).Nodup)
+    (hpos : ∀ l ∈ links, ∀ c ∈ comps, feeds c.1 l.target = true → ∀ s ∈ l.sources,
+      (s.1, true) ∈ comps ∧ (comps.map (·.1)).idxOf s.1 < (comps.map (·.1)).idxOf c.1) :
+    SourcesReady links [] comps := by
+  have key : ∀ (post pre : List (String × Bool)), comps = pre ++ post →
+      SourcesReady links ((pre.filter (·.2)).map (·.1)) post := by
+    intro post
+    induction post with
+    | nil => intro _ _; trivial
+    | cons x r ih =>
+      intro pre hc
+      obtain ⟨d, isC⟩ := x
+      refine ⟨?_, ?_⟩
+      · intro l hl hf s hs
+        have hdm : (d, isC) ∈ comps := by rw [hc]; simp
+        obtain ⟨hmem, hlt⟩ := hpos l hl (d, isC) hdm hf s hs
+        have hsplit : comps.map (·.1) = pre.map (·.1) ++ d :: r.map (·.1) := by rw [hc]; simp
+        have hidx := (idx_split hnd hsplit).1
+        simp only at hlt
+        rw [hidx] at hlt
+        have hin : s.1 ∈ pre.map (·.1) := by
+          apply Classical.byContradiction
+          intro hn
+          rw [hsplit, List.idxOf_append, if_neg hn] at hlt
+          omega
+        obtain ⟨y, hy, hy1⟩ := List.mem_map.mp hin
+        obtain ⟨y1, y2⟩ := y
+        simp only at hy1
+        subst hy1
+        have hyc : (y1, y2) ∈ comps := by rw [hc]; exact List.mem_append_left _ hy
+        have : y2 = true := pair_unique comps y1 y2 true hnd hyc hmem
+        subst this
+        exact List.mem_map.mpr ⟨(y1, true), List.mem_filter.mpr ⟨hy, rfl⟩, rfl⟩
+      · have := ih (pre ++ [(d, isC)]) (by rw [hc]; simp)
+        cases isC with
+        | false => simpa [List.filter_append] using this
+        | true => simpa [List.filter_append] using this
+  simpa using key comps [] rfl
+
+/-- acyclic link set with owned keys ⇒ the sources are ready along the component sequence the code walks -/
+theorem sourcesReady_of_order (links : List FLink) (setOrder dests seq : List String)
+    (isClass : String → Bool) (owner : String → String)
+    (h : componentOrder (links.map FLink.toLink) setOrder dests = .ok seq)
+    (hnd : dests.Nodup)
+    (hown : ∀ k ∈ (build (instantiationEdges (links.map FLink.toLink) setOrder)).nodes, ∀ c ∈ dests,
+      keyMatches k c = true ↔ k = owner c)
+    (hsrc : ∀ l ∈ links, ∀ s ∈ l.sources, s.1 ∈ dests ∧ isClass s.1 = true ∧ owner s.1 = s.1)
+    (hcons : ∀ l ∈ links, ∀ c ∈ dests, feeds c l.target = true → owner c = targetNode l.target) :
+    SourcesReady links [] (seq.map fun d => (d, isClass d)) := by
+  cases links with
+  | nil =>
+    -- no links: nothing to be ready for
+    have triv : ∀ (built : List String) (cs : List (String × Bool)), SourcesReady [] built cs := by
+      intro built cs
+      induction cs generalizing built with
+      | nil => trivial
+      | cons x r ih => obtain ⟨d, b⟩ := x; exact ⟨by intro l hl; simp at hl, ih _⟩
+    exact triv _ _
+  | cons l0 lrest =>
+    unfold componentOrder at h
+    cases ho : instantiationOrder ((l0 :: lrest).map FLink.toLink) setOrder with
+    | error e => rw [ho] at h; simp at h
+    | ok order =>
+      rw [ho] at h
+      simp only [Except.ok.injEq] at h
+      have ho' : topo (instantiationEdges ((l0 :: lrest).map FLink.toLink) setOrder) = .ok order := by
+        simpa [instantiationOrder] using ho
+      have hpermN := (topo_ok_names _ order ho').1
+      have hseqPerm : seq.Perm dests := by
+        rw [← h]
+        have h1 : reorder id order (sortDesc depth dests) = reorderRec (fun k c => keyMatches k (id c)) order (sortDesc depth dests) :=
+          reorderBy_eq _ _ _
+        rw [h1]
+        refine (reorderRec_perm _ order _).trans ?_
+        exact sortDesc_perm depth dests
+      have hmemS : ∀ x, x ∈ sortDesc depth dests ↔ x ∈ dests := fun x => mem_sortDesc depth x dests
+      have hmap : (seq.map fun d => (d, isClass d)).map (·.1) = seq := by simp [List.map_map, Function.comp_def]
+      apply sourcesReady_of_positions
+      · rw [hmap]; exact hseqPerm.nodup_iff.mpr hnd
+      · intro l hl c hc hf s hs
+        obtain ⟨cd, hcd, rfl⟩ := List.mem_map.mp hc
+        have hcd' : cd ∈ dests := hseqPerm.mem_iff.mp hcd
+        obtain ⟨hsd, hsc, hso⟩ := hsrc l hl s hs
+        have hsseq : s.1 ∈ seq := hseqPerm.mem_iff.mpr hsd
+        refine ⟨List.mem_map.mpr ⟨s.1, hsseq, by rw [hsc]⟩, ?_⟩
+        rw [hmap]
+        have hedge : (s.1, targetNode l.target) ∈ instantiationEdges ((l0 :: lrest).map FLink.toLink) setOrder := by
+          apply List.mem_append_left
+          exact mem_linkEdges s.1 _ (FLink.toLink l) (List.mem_map.mpr ⟨l, hl, rfl⟩)
+            (List.mem_map.mpr ⟨s, hs, rfl⟩)
+        have := owned_positions _ order (sortDesc depth dests) owner ho'
+          (fun k hk c' hc' => hown k (hpermN.mem_iff.mp hk) c' ((hmemS c').mp hc'))
+          (s.1, targetNode l.target) hedge s.1 ((hmemS _).mpr hsd) cd ((hmemS _).mpr hcd') hso (hcons l hl cd hcd' hf)
+        rw [h] at this
+        exact this
 
 end Jap.Graph
